@@ -14,7 +14,8 @@ RULE = (
     "case kinds. cantilever: a rod in any of the formulations (3 interpolations x displacement-based/mixed x "
     "constraint sets, degree 1..3, 1..4 elements, both material laws where admissible, straight or helical "
     "reference) clamped at xi=0 by a RigidConnection to a frame, loaded at the tip by a spatial Force, a body-fixed "
-    "B_Force, a Moment and a B_Moment that grow with the load parameter, solved with Newton in 1..8 load steps; the "
+    "B_Force, a Moment and a B_Moment that grow with the load parameter (optionally with a dead part already present at "
+    "load parameter 0, so that the first returned step is not the reference configuration), solved with Newton in 1..8 load steps; the "
     "same problem is solved again after a rigid placement (rotation vector up to pi, translation) of clamp, "
     "reference and spatial loads. springs: a rigid body held by three springs and loaded, solved with Newton and "
     "with Riks (random initial arc length, load span, and a small max_load_steps so that early stops occur). "
@@ -50,12 +51,16 @@ def _case(draw):
         L = rs["L"]
         sc = EI / L**2
         return {"kind": kind, "rod": rs, "nsteps": draw(st.integers(1, 8)),
+                # part of the load that is already present at load parameter 0 (dead load): load(t) = (a + (1-a) t) F
+                "preload": draw(st.sampled_from([0.0, 0.0, 0.2, 0.5])),
                 "F": (np.array(draw(gen.unit_vec3())) * sc * draw(gen.f(0.3, 2.0))).tolist(),
                 "BF": (np.array(draw(gen.unit_vec3())) * sc * draw(gen.f(0.0, 1.0))).tolist(),
                 "M": (np.array(draw(gen.unit_vec3())) * EI / L * draw(gen.f(0.0, 1.0))).tolist(),
                 "BM": (np.array(draw(gen.unit_vec3())) * EI / L * draw(gen.f(0.0, 1.0))).tolist(),
                 "psi": draw(gen.rotvec(min_exp=-1, near_max=False)), "b": [draw(gen.f(-2, 2)) for _ in range(3)]}
-    return {"kind": kind, "solver": draw(st.sampled_from(["Newton", "Riks", "Riks"])), "nsteps": draw(st.integers(1, 8)),
+    solver = draw(st.sampled_from(["Newton", "Riks", "Riks"]))
+    return {"kind": kind, "solver": solver, "nsteps": draw(st.integers(1, 8)),
+            "preload": draw(st.sampled_from([0.0, 0.3, 0.6])) if solver == "Newton" else 0.0,
             "k": [draw(gen.f(5, 40)) for _ in range(3)], "F": [draw(gen.f(-3, 3)) for _ in range(3)],
             "la_arc0": draw(gen.f(0.01, 0.2)), "span1": draw(gen.f(0.5, 2.0)), "max_load_steps": draw(st.integers(1, 30))}
 
@@ -87,10 +92,12 @@ def build_cantilever(spec, placement=None):
     system.add(sysbuild.make_joint({"type": "RigidConnection", "xi2": 0.0}, frame, rod))
     F, BF, M, BM = (np.array(spec[k], dtype=float) for k in ("F", "BF", "M", "BM"))
     RF, RM = R0 @ F, R0 @ M
-    system.add(Force(lambda t: t * RF, rod, xi=1.0, name="tip_force"))
-    system.add(B_Force(lambda t: t * BF, rod, xi=1.0, name="tip_b_force"))
-    system.add(Moment(lambda t: t * RM, rod, xi=1.0, name="tip_moment"))
-    system.add(B_Moment(lambda t: t * BM, rod, xi=1.0, name="tip_b_moment"))
+    a = float(spec.get("preload", 0.0))
+    lam = lambda t: a + (1.0 - a) * t
+    system.add(Force(lambda t: lam(t) * RF, rod, xi=1.0, name="tip_force"))
+    system.add(B_Force(lambda t: lam(t) * BF, rod, xi=1.0, name="tip_b_force"))
+    system.add(Moment(lambda t: lam(t) * RM, rod, xi=1.0, name="tip_moment"))
+    system.add(B_Moment(lambda t: lam(t) * BM, rod, xi=1.0, name="tip_b_moment"))
     sysbuild.assemble(system)
     return system, rod, Q, rs
 
@@ -113,7 +120,8 @@ def build_springs(spec):
         el.name = f"spring{i}"
         system.add(el)
     F = np.array(spec["F"], dtype=float)
-    system.add(Force(lambda t: t * F, rb, B_r_CP=np.array([0.1, 0.0, 0.05]), name="load"))
+    a = float(spec.get("preload", 0.0))
+    system.add(Force(lambda t: (a + (1.0 - a) * t) * F, rb, B_r_CP=np.array([0.1, 0.0, 0.05]), name="load"))
     sysbuild.assemble(system)
     return system
 
@@ -206,7 +214,7 @@ def check(spec):
             res.label("incomplete_run")
         ang = float(np.linalg.norm(spec["psi"]))
         res.nontrivial = all(complete) and defl > 0.05 * L and ang > 0.1
-        res.label("cantilever", feats["formulation"], rs["material"])
+        res.label("cantilever", feats["formulation"], rs["material"], "preload" if spec.get("preload", 0.0) > 0 else "proportional_load")
         return res
 
     # ---- springs: Newton / Riks ----------------------------------------------------------------
@@ -247,5 +255,5 @@ def check(spec):
         sol.la_N = None if system.nla_N == 0 else sol.la_N
     equilibrium(res, system, sol, site, feats)
     res.nontrivial = bool(early) if solver == "Riks" else len(t) >= 3
-    res.label("springs", f"solver:{solver}", "early_stop" if early else "complete")
+    res.label("springs", f"solver:{solver}", "early_stop" if early else "complete", "preload" if spec.get("preload", 0.0) > 0 else "proportional_load")
     return res
